@@ -68,7 +68,7 @@ _public_ ssize_t m_mod_unstash(m_mod_t *mod, size_t len) {
     m_queue_t *unstashed = m_queue_new(mem_dtor);
     M_ALLOC_ASSERT(unstashed);
 
-    m_itr_foreach(mod->stashed, {
+    m_itr_foreach(mod->stashed, M_VERIF_LOOP(unstash) {
         if (m_idx + 1 == len) {
             memhook._free(m_itr);
             break;
